@@ -15,7 +15,17 @@ let rec int_of_nat (x : nat) : int = match x with O -> 0 | S y -> 1 + int_of_nat
 let rec nat_of_int (i : int) : nat = if i <= 0 then O else S (nat_of_int (i - 1))
 
 (* decimal strings beyond OCaml's int range are not needed: versions stay < 2^62 *)
-let z_of_string (s : string) : z = z_of_int (int_of_string s)
+(* decimal strings of any size (int64 extremes do not fit OCaml's 63-bit int) *)
+let z_of_string (s : string) : z =
+  let neg = String.length s > 0 && s.[0] = '-' in
+  let digits = if neg then String.sub s 1 (String.length s - 1) else s in
+  if digits = "" then failwith "bad integer";
+  let ten = z_of_int 10 in
+  let acc = ref Z0 in
+  String.iter (fun c ->
+      if c < '0' || c > '9' then failwith "bad integer";
+      acc := Z.add (Z.mul !acc ten) (z_of_int (Char.code c - 48))) digits;
+  if neg then Z.opp !acc else !acc
 let string_of_z (x : z) : string = string_of_int (int_of_z x)
 
 (* ---------- hex ---------- *)
@@ -308,6 +318,14 @@ let make_m1 (params : string list) : machine =
             (match x1 with
              | XOk -> let s2, x2 = m_step s1 (OLoad (z_of_string v)) in st := s2; show_out x2
              | _ -> st := s1; "err")
+        | "x" :: _ -> "ok"
+        | [ "legacyend" ] -> "ok"
+        | "hbound" :: t :: _ | "cost" :: t :: _ ->
+            let is_h = (List.hd toks = "hbound") in
+            if t = "w" || List.exists (fun (w, _) -> int_of_z w = int_of_string (String.sub t 1 (String.length t - 1))) !st.forest
+            then (if is_h then "hb(ok)" else "ct(ok)") else "err"
+        | [ "expimp"; v; _; _ ] ->
+            if List.exists (fun (w, _) -> int_of_z w = int_of_string v) !st.forest then "ei(ok)" else "err"
         | [ "changes"; a; b ] -> expected_changes !st (int_of_string a) (int_of_string b)
         | [ "replaycs" ] | [ "replaycs"; _ ] -> "ok"
         | [ "savecs"; pairs ] ->
@@ -403,7 +421,95 @@ let make_m1 (params : string list) : machine =
              | _ -> None)
         | _ -> classify_m1 !prev toks model impl) }
 
-let machines : (string * (string list -> machine)) list ref = ref [ ("m1", make_m1) ]
+(* ---------- machine kv: the storage backends (C18) ---------- *)
+let show_kverr = function ErrKeyEmpty -> "err:key" | ErrValueNil -> "err:val" | ErrBatchClosed -> "err:closed"
+let show_pairs (l : (bytes * bytes) list) : string =
+  "kv:[" ^ String.concat "," (List.map (fun (k, v) -> hex_of_bytes k ^ "=" ^ hex_of_bytes v) l) ^ "]"
+let show_kvout (o : kvout) : string =
+  match o with
+  | OErr e -> show_kverr e
+  | OPanic -> "panic"
+  | OFuel -> "modelfuel"
+  | OOk -> "ok"
+  | OBytes None -> "nil"
+  | OBytes (Some b) -> "b:" ^ hex_of_bytes b
+  | OBool b -> if b then "t" else "f"
+  | OPairs l -> show_pairs l
+  | OBatch rs -> "bt[" ^ String.concat "," (List.map (function None -> "ok" | Some e -> show_kverr e) rs) ^ "]"
+
+(* keys: nil and empty are both the empty key; values and bounds keep nil apart *)
+let key_tok (s : string) : bytes = if s = "-" || s = "." then [] else bytes_of_tok s
+let parse_bops (tok : string) : bop list =
+  if tok = "." then []
+  else List.map (fun p ->
+      match String.split_on_char ':' p with
+      | [ "s"; k; v ] -> ((true, key_tok k), obytes_of_tok v)
+      | [ "d"; k ] -> ((false, key_tok k), None)
+      | _ -> failwith "bad bop") (String.split_on_char ',' tok)
+
+let parse_kvop (toks : string list) : kvop =
+  match toks with
+  | [ "get"; k ] -> KGet (key_tok k)
+  | [ "has"; k ] -> KHas (key_tok k)
+  | [ "set"; k; v ] -> KSet (key_tok k, obytes_of_tok v)
+  | [ "del"; k ] -> KDelete (key_tok k)
+  | [ "iter"; a; b ] -> KIter (obytes_of_tok a, obytes_of_tok b)
+  | [ "riter"; a; b ] -> KRIter (obytes_of_tok a, obytes_of_tok b)
+  | [ "batch"; o1; m; o2 ] -> KBatch (parse_bops o1, m = "w", parse_bops o2)
+  | _ -> failwith ("bad kv op: " ^ String.concat " " toks)
+
+let make_kv (params : string list) : machine =
+  let backend = header_param params "backend" "memdb" in
+  let prefix = bytes_of_tok (header_param params "prefix" "73") in
+  let seed = header_param params "seed" "." in
+  let m0 =
+    if seed = "." then []
+    else List.fold_left (fun m p ->
+        match String.split_on_char '=' p with
+        | [ k; v ] -> kv_set m (bytes_of_tok k) (bytes_of_tok v)
+        | _ -> m) [] (String.split_on_char ',' seed) in
+  let stepf =
+    (match backend with
+     | "memdb" -> mem_step
+     | "leveldb" -> ldb_step
+     | "prefixmem" -> prefix_step mem_step prefix
+     | "prefixleveldb" -> prefix_step ldb_step prefix
+     | _ -> failwith "unknown backend") in
+  let st = ref m0 in
+  { step = (fun toks ->
+        match toks with
+        | [ "base" ] -> show_pairs !st
+        | _ ->
+            let m', o = stepf !st (parse_kvop toks) in
+            st := m';
+            show_kvout o);
+    classify = (fun _ _ _ -> None) }
+
+(* ---------- machine imp: the importer on arbitrary streams (C10) ---------- *)
+let parse_stream (tok : string) : enode option list =
+  if tok = "." then []
+  else List.map (fun p ->
+      if p = "N" then None
+      else match String.split_on_char ':' p with
+        | [ k; v; ver; h ] ->
+            Some { e_key = obytes_of_tok k; e_value = obytes_of_tok v; e_version = z_of_string ver; e_height = z_of_string h }
+        | _ -> failwith "bad stream node") (String.split_on_char ';' tok)
+
+let make_imp (_ : string list) : machine =
+  { step = (fun toks ->
+        match toks with
+        | [ "imp"; v; codec; stream ] ->
+            let r = (if codec = "compress" then cimp_run_sha (z_of_string v) (parse_stream stream)
+                     else imp_run_sha (z_of_string v) (parse_stream stream)) in
+            (match r with
+             | IOk _ -> "ok;vis=" ^ (if int_of_string v = 0 then "none" else "v" ^ v)
+             | IErr -> "err;vis=none"
+             | IPanic -> "panic")
+        | _ -> failwith "bad imp op");
+    classify = (fun _ _ _ -> None) }
+
+let machines : (string * (string list -> machine)) list ref =
+  ref [ ("m1", make_m1); ("kv", make_kv); ("imp", make_imp) ]
 
 (* ---------- trace replay ---------- *)
 let split_ws s = List.filter (fun x -> x <> "") (String.split_on_char ' ' s)
@@ -450,6 +556,7 @@ let () =
               | None -> if echo then Printf.printf "%s => %s\n" opstr got else incr skipped
               | Some e ->
                   if e <> got && not (got = "*" && not (starts_with "panic" e)) && not (entrywise_match got e)
+                     && not (got = "panic" && starts_with "panic" e)
                      && not (crash_match got e) then begin
                     match (if List.length !known = 0 then None else m.classify (split_ws opstr) got e) with
                     | Some f when List.mem f !known ->
